@@ -243,23 +243,26 @@ type TSAServed struct {
 }
 
 type c15Obs struct {
-	Bytes     []byte
-	Err       error
-	Panicked  bool
-	PanicVal  any
-	X         *Exchange
-	XRetry    *Exchange
-	PriorErr  string
-	RevObs    *RevObs
-	Stub      *stubValidator
-	RecV      *recValidator
-	Signer    *SimSigner
-	Chain     *SignerChain
-	TStart    time.Time
-	TReturn   time.Time
-	BubbleErr string
-	Harness   string
-	Views     []*CertView
+	Bytes             []byte
+	Err               error
+	Panicked          bool
+	PanicVal          any
+	X                 *Exchange
+	XRetry            *Exchange
+	PriorErr          string
+	AfterErr          error // Content() of the object after the Sign under test
+	AfterShowsRequest bool  // ... shows the payload of the request under test
+	AfterHasToken     bool
+	RevObs            *RevObs
+	Stub              *stubValidator
+	RecV              *recValidator
+	Signer            *SimSigner
+	Chain             *SignerChain
+	TStart            time.Time
+	TReturn           time.Time
+	BubbleErr         string
+	Harness           string
+	Views             []*CertView
 }
 
 func mediaType(format int) string {
@@ -437,6 +440,20 @@ func (sc *c15Scenario) exec(obs *c15Obs) {
 		obs.Bytes, obs.Err = env.Sign(req.WithContext(ctx))
 	}()
 	obs.TReturn = time.Now()
+	// what the object shows afterwards
+	func() {
+		defer func() {
+			if r := recover(); r != nil {
+				obs.AfterErr = fmt.Errorf("panic: %v", r)
+			}
+		}()
+		c, err := env.Content()
+		obs.AfterErr = err
+		if err == nil && c != nil {
+			obs.AfterShowsRequest = canonJSON(c.Payload.Content) == canonJSON(req.Payload.Content)
+			obs.AfterHasToken = len(c.SignerInfo.UnsignedAttributes.TimestampSignature) > 0
+		}
+	}()
 	obs.RevObs.Fetches = inf.rf.all()
 	obs.RevObs.TEnd = obs.TReturn
 	// views of the TSA chain's revocation sources (for the reference gate)
@@ -525,6 +542,15 @@ func evalC15(sc *c15Scenario, obs *c15Obs, rc *ruleCtx) {
 	if obs.XRetry != nil && obs.XRetry.Rec.Begun {
 		rc.anteTrue("C15.T3")
 		rc.fail("C15.T3", "second_request_after_rejection", "the authority rejected the request and the library sent it a second, different request instead of failing ("+desc+")")
+	}
+	if obs.Err != nil && sc.Scheme == 0 && !sc.NoTimestamp {
+		// a timestamped signing that failed leaves no signature of the request
+		// behind in the object either (with or without a token): an envelope
+		// needs the verified token whichever way it is obtained
+		rc.anteTrue("C15.T1")
+		if obs.AfterErr == nil && obs.AfterShowsRequest {
+			rc.fail("C15.T1", fmt.Sprintf("failed_timestamped_sign_observable_in_object/token=%v", obs.AfterHasToken), fmt.Sprintf("Sign failed (%v) but the object now shows the request's content (timestamp token present: %v) (%s)", errKind(obs.Err), obs.AfterHasToken, desc))
+		}
 	}
 	ok := obs.Err == nil
 	if ok && len(obs.Bytes) == 0 {
